@@ -12,6 +12,7 @@
 //            dc  regDecouple            dl<n> delay(n)                st<k> stall(condition pin k)
 //            ex<r> extendWidth(ratio r) re<r> reduceWidth(ratio r)
 //            ff<d> strm::fifo(minDepth d, DontCare)   fz<d> strm::fifo(minDepth d, latency 0 = fall-through)
+//            fe<n*100+d> / fl<n*100+d> / fm<n*100+d>  strm::fifo(minDepth d, FifoLatency(n) / ::AtLeast(n) / ::AtMost(n))
 //            px<r> Packet.h widthExtend(ratio r)      pr<r> Packet.h widthReduce(ratio r)
 //            pm<t> Packet.h matchWidth(to t digits) -- stand-in, see below: the real template does not compile
 //   be=1    : the stream additionally carries scl::ByteEnable (one enable bit per payload byte; w must be 8, so that a digit
@@ -210,6 +211,9 @@ void runCaseT(const Case &c, std::ostream &out)
 		}
 		else if (kind == "ff") keep.emplace_back(new S(scl::strm::fifo(std::move(*cur), arg, scl::FifoLatency::DontCare())));
 		else if (kind == "fz") keep.emplace_back(new S(scl::strm::fifo(std::move(*cur), arg, scl::FifoLatency(0))));
+		else if (kind == "fe") keep.emplace_back(new S(scl::strm::fifo(std::move(*cur), arg % 100, scl::FifoLatency(arg / 100))));
+		else if (kind == "fl") keep.emplace_back(new S(scl::strm::fifo(std::move(*cur), arg % 100, scl::FifoLatency::AtLeast(arg / 100))));
+		else if (kind == "fm") keep.emplace_back(new S(scl::strm::fifo(std::move(*cur), arg % 100, scl::FifoLatency::AtMost(arg / 100))));
 		else throw std::runtime_error("harness: unknown stage " + tok);
 		cur = keep.back().get();
 	}
